@@ -94,4 +94,39 @@ def ctrHook (k : Consts) (cfg : Cfg) (isBE hasSpec : Bool) (c : Ctr) : Option Ou
   if !isBE then none else if !hasSpec then none else
     some { shares := ctrShares k c, quota := ctrQuota k cfg c, mem := ctrMem c }
 
+/-! ### the plugin rule (rule.go): CFS switch and CPU-normalisation ratio, updated by callbacks -/
+
+/-- ratios are in hundredths (the node annotation carries two decimals); `-100` is the code's
+    `-1` = "no ratio configured".  `none` = never set. -/
+structure Rule where
+  cfs   : Option Bool
+  ratio : Option Int
+deriving Repr, DecidableEq
+
+def Rule.init : Rule := { cfs := none, ratio := none }
+
+inductive RuleEv where
+  | nodeRatio (pct : Int)   -- parseRuleForNodeMeta with a valid annotation (pct > 0) or without one (pct = -100)
+  | nodeBad                 -- annotation present but unparsable / non-positive: error, rule untouched
+  | slo (cfsEnabled : Bool) -- parseRuleForNodeSLO
+deriving Repr, DecidableEq
+
+/-- `changed old new` models `math.Abs(old-new) >= ratioDiffEpsilon` (float64, epsilon 0.01). -/
+def Rule.step (changed : Int → Int → Bool) (r : Rule) : RuleEv → Rule × Bool
+  | .nodeRatio pct =>
+    match r.ratio with
+    | none => ({ r with ratio := some pct }, true)
+    | some old => if changed old pct then ({ r with ratio := some pct }, true) else (r, false)
+  | .nodeBad => (r, false)
+  | .slo en =>
+    match r.cfs with
+    | none => ({ r with cfs := some en }, true)
+    | some old => if old ≠ en then ({ r with cfs := some en }, true) else (r, false)
+
+/-- `GetCFSQuotaScaleRatio`: (enabled, ratio in hundredths; -100 when unset or CFS quota disabled). -/
+def Rule.effective (r : Rule) : Bool × Int :=
+  let enabled := r.cfs.getD true
+  let ratio := r.ratio.getD (-100)
+  if enabled then (true, ratio) else (false, -100)
+
 end KoordVerif.C14
